@@ -24,8 +24,9 @@ CONSTANTS CidStates,     \* subset of {"valid", "rejected", "missing"}
           ArgStates      \* subset of {"ok", "none", "unknownOption", "untilTooSmall", "untilNotNumber"}
 
 \* first offending row of each kind of file (0 = none); "shares" has the same keys as its sibling "accepted" file
+\* ("lateDamage": the container itself is malformed at row 4 -- delimited text the csv reader refuses there)
 BadAt(kind) == CASE kind = "accepted" -> 0 [] kind = "shares" -> 0 [] kind = "fieldRejected" -> 2 [] kind = "dupRejected" -> 3
-                 [] OTHER -> 0
+                 [] kind = "lateDamage" -> 4 [] OTHER -> 0
 Unreadable(kind) == kind \in {"missing", "directory"}
 Limit(u) == CASE u = "absent" -> -1 [] u = "all" -> -1 [] u = "0" -> 0 [] u = "k2" -> 2 [] u = "k9" -> 9
 Rejected(kind, u) == BadAt(kind) > 0 /\ (Limit(u) = -1 \/ BadAt(kind) <= Limit(u))
